@@ -7,7 +7,7 @@ holds on *every* path from entry to n: "n is dominated by the true edge of the
 test" in a form that survives early-return/nesting/negation rewrites."""
 from .frontend import kids, walk, qtype, dtype
 from .expr import Keys, Folder, peel, written_lvalues, callee, call_args
-import re
+import re, os, sys
 
 NEG = {'<': '>=', '<=': '>', '>': '<=', '>=': '<', '==': '!=', '!=': '=='}
 
@@ -111,6 +111,7 @@ class FactEngine(object):
                     return False        # (a read through a pointer to const denotes the same value throughout)
             return True
         subst = {}
+        snapshots = {}
         for i, d in decls.items():
             if i in written:
                 continue
@@ -126,7 +127,16 @@ class FactEngine(object):
             # (in a const method the elements of member containers cannot change either: element reads are stable)
             relaxed = isref or (const_method and all(_root_is_this(y) for y in walk(init)
                                                        if y.get('kind') == 'CXXOperatorCallExpr'))
-            if not _pure(init, ref=relaxed, folder=self.folder) or not stable(init, d, ref=relaxed) or d.get('kind') == 'ParmVarDecl':
+            if d.get('kind') == 'ParmVarDecl' or not _pure(init, ref=relaxed, folder=self.folder):
+                continue
+            if not stable(init, d, ref=relaxed):
+                # a snapshot (`const std::size_t n = v_.size();`, `const T t = tr.field;`): it still stands for what it was
+                # taken from at every use that no write to the places it read can reach -- decided below, once the locals
+                # declared before it have their keys
+                dt = dtype(d)
+                if re.match(r'^const (unsigned |signed )?(bool|char|short|int|long|long long)$', dt or '') or \
+                        (dt or '').endswith('* const') or (dt or '').endswith('*const'):
+                    snapshots[i] = init
                 continue
             # only scalar / pointer / reference locals
             dt = dtype(d)
@@ -143,7 +153,12 @@ class FactEngine(object):
         for i, kk in self.param_bindings.items():
             if i not in written:
                 self.keys.subst[i] = kk
-        for i in sorted(subst, key=lambda j: (decls[j].get('_pos') or ('', 0, 0))[1] or 0):
+        for i in sorted(list(subst) + list(snapshots), key=lambda j: (decls[j].get('_pos') or ('', 0, 0))[1] or 0):
+            if i in snapshots:
+                if self._snapshot_stable(snapshots[i], decls[i], i):
+                    subst[i] = snapshots[i]
+                else:
+                    continue
             self.keys.subst[i] = self.keys.key(subst[i])
         # element accesses through write-once pointer locals are keyed as the container element
         from .ptrnorm import build_env
@@ -176,6 +191,168 @@ class FactEngine(object):
         for i in sorted(ident, key=lambda j: (decls[j].get('_pos') or ('', 0, 0))[1] or 0):
             self._ident[i] = self.keys.key(ident[i])
         self.keys.subst = saved
+
+    def _snapshot_stable(self, init, decl_node, i):
+        """No write to a place the initialiser reads lies on a path from the declaration to a use of the local.  Places are
+        compared as access paths with subscripts erased (two elements of one container may be the same element)."""
+        def norm(k):
+            return re.sub(r'\[[^\[\]]*\]', '[*]', re.sub(r'\[[^\[\]]*\]', '[*]', k))
+
+        def overlap(a, b):
+            if a == b:
+                return True
+            for (x_, y_) in ((a, b), (b, a)):
+                if x_.startswith(y_) and x_[len(y_):len(y_) + 1] in ('.', '[', '-'):
+                    return True
+            return False
+        reads = set()
+        skip = set()
+        for y in walk(init):
+            if y.get('kind') == 'CXXMemberCallExpr' and callee(y) and callee(y)[0] == 'method' and callee(y)[2] is not None and \
+                    callee(y)[1] in ('size', 'length', 'empty', 'capacity') and not call_args(y):
+                # the extent of a container: changed by what restructures it, not by writes to its elements
+                reads.add(norm(self.keys.key(callee(y)[2])) + '.<size>')
+                o_ = callee(y)[2]
+                while o_ is not None:
+                    skip.add(id(o_))
+                    if o_.get('kind') in ('ImplicitCastExpr', 'ParenExpr') and kids(o_):
+                        o_ = kids(o_)[0]
+                    else:
+                        break
+        for y in walk(init):
+            k = y.get('kind')
+            if id(y) in skip:
+                continue
+            if k in ('MemberExpr', 'ArraySubscriptExpr') or (k == 'DeclRefExpr' and (y.get('referencedDecl') or {}).get('kind') in ('VarDecl', 'ParmVarDecl')) \
+                    or (k == 'UnaryOperator' and y.get('opcode') == '*') or k == 'CXXThisExpr' or \
+                    (k == 'CXXOperatorCallExpr' and callee(y) and callee(y)[0] == 'fn' and callee(y)[1].get('name') in ('operator[]', 'operator*', 'operator->')):
+                if k == 'MemberExpr' and 'CXXMethodDecl' in str((self.unit.by_id.get(y.get('referencedMemberDecl')) or {}).get('kind')):
+                    continue
+                kk = norm(self.keys.key(y))
+                if kk and kk != 'this':
+                    reads.add(kk)
+                # (only the outermost access path is the place read: `tr.unix_time` reads that field, not all of tr)
+                b_ = kids(y)[0] if k in ('MemberExpr', 'ArraySubscriptExpr') and kids(y) else None
+                while b_ is not None:
+                    skip.add(id(b_))
+                    if b_.get('kind') in ('ImplicitCastExpr', 'ParenExpr', 'MemberExpr') and kids(b_):
+                        b_ = kids(b_)[0]
+                    else:
+                        break
+        if not reads:
+            return False
+        # a place reached through a reference / pointer local whose referent is not known by name may also be reached through
+        # another name: for such reads any write to a field of that name, or to a whole element / pointee, counts
+        def _rec(t):
+            t = re.sub(r'\b(const|volatile|struct|class)\b', '', t or '').replace('&', '').strip()
+            return t
+
+        loose = set()
+        loose_type = {}
+        for rk in reads:
+            m_ = re.match(r'^\*?\(?(\w+)#(0x[0-9a-f]+)\)?((?:->|\.).*)?$', rk)
+            d_ = self._decl_node.get(m_.group(2)) if m_ else None
+            if d_ is not None and ((qtype(d_) or '').rstrip().endswith('&') or (dtype(d_) or '').rstrip().rstrip('const').rstrip().endswith('*')):
+                loose.add(rk)
+                loose_type[rk] = _rec(dtype(d_) or qtype(d_)).rstrip('*').strip()
+        g = self.cfg
+        starts = g.nodes_for(decl_node)
+        if not starts:
+            return False
+
+        start_ids = set(s_.id for s_ in starts)
+
+        def closure(ns):
+            # (a path that passes the declaration again takes a new snapshot there)
+            seen = set()
+            stack = [m for s_ in ns for (m, _) in s_.succs]
+            while stack:
+                n = stack.pop()
+                if n.id in seen or n.id in start_ids:
+                    continue
+                seen.add(n.id)
+                stack.extend(m for (m, _) in n.succs)
+            return seen
+        after_decl = closure(starts)
+        use_nodes = set()
+        for y in walk(self.fn):
+            if y.get('kind') == 'DeclRefExpr' and (y.get('referencedDecl') or {}).get('id') == i:
+                for n in g.nodes_for(y):
+                    use_nodes.add(n.id)
+        byid = {n.id: n for n in g.live}
+        for x in walk(self.fn):
+            k = x.get('kind')
+            if k not in ('BinaryOperator', 'CompoundAssignOperator', 'UnaryOperator', 'CallExpr', 'CXXMemberCallExpr',
+                         'CXXOperatorCallExpr', 'CXXConstructExpr'):
+                continue
+            wkeys = []
+            wtypes = {}
+            for lv in written_lvalues(x):
+                if lv.get('_p') is not x and not any(c is lv for c in kids(x)) and k in ('BinaryOperator', 'CompoundAssignOperator', 'UnaryOperator'):
+                    continue        # (reported again at its own node)
+                wk_ = norm(self.keys.key(lv))
+                cx = callee(x) if k in ('CXXMemberCallExpr', 'CXXOperatorCallExpr') else None
+                if cx and ((cx[0] == 'method' and cx[2] is lv and cx[1] in ('operator[]', 'at', 'front', 'back', 'begin', 'end', 'data', 'find',
+                                                                           'rbegin', 'rend')) or
+                           (cx[0] == 'fn' and cx[1].get('name') in ('operator[]',) and call_args(x) and call_args(x)[0] is lv)):
+                    wk_ += '[*]'        # access to an element: the elements may be written through the result, the extent not
+                    wtypes[wk_] = _rec(dtype(x) or qtype(x))
+                else:
+                    wtypes.setdefault(wk_, _rec(dtype(lv) or qtype(lv)))
+                wkeys.append(wk_)
+            if k == 'CXXMemberCallExpr':
+                c = callee(x)
+                me = peel(kids(x)[0], explicit=False)
+                if c and c[0] == 'method' and (c[2] is None or peel(c[2]).get('kind') == 'CXXThisExpr'):
+                    from .expr import _member_fn_type, _is_const_method
+                    if not _is_const_method(_member_fn_type(x, me)):
+                        wkeys.append('this')        # a non-const member function of this object: any member may change
+            if k == 'CallExpr':
+                c = callee(x)
+                if c and c[0] not in ('fn',):
+                    wkeys.append('this')            # an indirect call: not followed
+            hit = False
+            for wk in wkeys:
+                for rk in reads:
+                    if wk == 'this' and (rk.startswith('this.') or rk in loose):
+                        hit = True
+                    elif wk != 'this' and overlap(wk, rk):
+                        hit = True
+                    elif rk in loose and wk != 'this' and re.match(r'^\w+#0x[0-9a-f]+$', wk):
+                        # a local assigned as a whole: the same place only if the reference was bound to that very local
+                        m2_ = re.match(r'^\*?\(?\w+#(0x[0-9a-f]+)', rk)
+                        d2_ = self._decl_node.get(m2_.group(1)) if m2_ else None
+                        ini_ = [c for c in kids(d2_) if not c.get('kind', '').endswith('Attr')] if d2_ is not None else []
+                        if not ini_ or any(y.get('kind') == 'DeclRefExpr' and '%s#%s' % ((y.get('referencedDecl') or {}).get('name'),
+                                                                                         (y.get('referencedDecl') or {}).get('id')) == wk
+                                           for y in walk(ini_[-1])):
+                            hit = True
+                    elif rk in loose and wk != 'this':
+                        rf = re.split(r'\.|->', rk)[-1] if re.search(r'\.|->', rk) else None
+                        wf = re.split(r'\.|->', wk)[-1] if re.search(r'\.|->', wk) else None
+                        whole = wk.endswith(']') or wk.startswith('*') or wf is None
+                        if whole:
+                            # (objects of two different class types are two objects)
+                            tw, tr_ = wtypes.get(wk), loose_type.get(rk)
+                            if not (tw and tr_ and tw != tr_ and not tw.endswith('*') and not tr_.endswith('*')):
+                                hit = True
+                        elif rf is None or rf == wf:
+                            hit = True
+            if not hit:
+                continue
+            wn = [n for n in g.nodes_for(x)]
+            for n in wn:
+                if n.id not in after_decl and not any(n is s_ for s_ in starts):
+                    continue
+                if n.id in after_decl and n.id in use_nodes:
+                    if os.environ.get('VERIF_DBG_SNAP'):
+                        print('SNAP same-node', decl_node.get('name'), wkeys, file=sys.stderr)
+                    return False        # written and used in one evaluation: order not followed
+                if n.id in after_decl and (closure([n]) & use_nodes):
+                    if os.environ.get('VERIF_DBG_SNAP'):
+                        print('SNAP later', decl_node.get('name'), wkeys, n, file=sys.stderr)
+                    return False
+        return True
 
     def walk_ident(self, e, _seen=None):
         """Nodes of e, and of the initialisers of the write-once locals it names (recursively)."""
@@ -870,6 +1047,8 @@ def _root_is_this(opcall):
 
 
 def _pure(e, ref=False, folder=None):
+    if folder is not None and folder.fold(e) is not None:
+        return True             # a constant, however spelled (std::chrono::seconds::max().count())
     for x in walk(e):
         k = x.get('kind')
         if k == 'CallExpr' and folder is not None and folder.fold(x) is not None:
